@@ -238,7 +238,10 @@ def r_rounding_map(chk, P, tier):
     def correction(v):
         """signed correction in ns of a shown Ok(original [+|- TimeDelta]) value, or the error name"""
         if isinstance(v, tuple) and v[0] == "Result::Err":
-            return v[1]
+            e = v[1]
+            while isinstance(e, tuple) and len(e) == 2 and e[0] == "Result::Err":
+                e = e[1]        # the residual of a `?` on an inlined private helper is shown as a nested Err
+            return e
         if isinstance(v, tuple) and v[0] == "Result::Ok":
             r = v[1]
             if r == "arg99":
